@@ -634,3 +634,43 @@ Proof.
   apply accepted_chain_is_sm2_signed in E. rewrite Forall_forall in E. destruct (E c Hin) as [H1 H2].
   destruct Hne; contradiction.
 Qed.
+
+(* ------------------------------------------------------------------ wave 3 *)
+
+(* the validity test is a statement about unbounded integers: no difference is ever truncated or
+   wrapped, so a notBefore 2^31, 2^32 or any other distance ahead of the clock is "not yet valid" *)
+Theorem validity_check_exact : forall nb na now : Z,
+  validity_check nb na now = true <-> (nb <= na /\ na - nb <= X509_VALIDITY_MAX_SECONDS /\ nb <= now <= na).
+Proof.
+  intros. unfold validity_check. rewrite !andb_true_iff, !Z.leb_le. lia.
+Qed.
+
+Corollary validity_no_wraparound : forall nb na now k,
+  0 < k -> validity_check (now + k) na now = false /\ validity_check nb (now - k) now = false.
+Proof.
+  intros nb na now k Hk. split.
+  - destruct (validity_check (now + k) na now) eqn:E; [|reflexivity]. apply validity_check_exact in E. lia.
+  - destruct (validity_check nb (now - k) now) eqn:E; [|reflexivity]. apply validity_check_exact in E. lia.
+Qed.
+
+Example validity_2_32_ahead :
+  validity_check (1700000000 + 4294967296 - 1000) (1700000000 + 4294967296 + 86400) 1700000000 = false /\
+  validity_check (1700000000 + 2147483648) (1700000000 + 2147483648 + 86400) 1700000000 = false /\
+  validity_check (4294967296 + 5 - 1000) (4294967296 + 5 + 1000) (4294967296 + 5) = true.
+Proof. repeat split; vm_compute; reflexivity. Qed.
+
+(* every CA certificate of the presented chain counts against the depth limit and the pathLen
+   constraints, whatever its names: a self-issued one (issuer name = subject name, key rollover)
+   is no exception.  Key-rollover chain: leaf <- CA(name 2, key 2, self-issued under key 5) <- CA(name 2, key 5) <- root *)
+Definition ro_root (pl : Z) := w_cert 1 1 1 1 [x_bc 1 pl; x_ku 96].
+Definition ro_old (pl : Z) := w_cert 2 1 5 1 [x_bc 1 pl; x_ku 96].
+Definition ro_new := w_cert 2 2 2 5 [x_bc 1 0; x_ku 96].
+Definition ro_leaf := w_cert 3 2 3 2 [x_ku 1].
+
+Example self_issued_ca_counts :
+  (forall f, In f [legacy; repaired] ->
+     certs_verify f 1500 RoleServer 2 [ro_root 2] [ro_leaf; ro_new; ro_old 1] = true /\
+     certs_verify f 1500 RoleServer 1 [ro_root 2] [ro_leaf; ro_new; ro_old 1] = false /\      (* depth counts it *)
+     certs_verify f 1500 RoleServer 2 [ro_root 2] [ro_leaf; ro_new; ro_old 0] = false /\      (* pathLen of the older CA counts it *)
+     certs_verify f 1500 RoleServer 2 [ro_root 1] [ro_leaf; ro_new; ro_old 1] = false).       (* pathLen of the root counts it *)
+Proof. intros f [<-|[<-|[]]]; repeat split; vm_compute; reflexivity. Qed.
